@@ -106,6 +106,10 @@ pub fn gen_custom(src: &mut Src, o: &GenOpts) -> Vec<NFamily> {
     if nf == o.max_families && src.chance(30) {
         // occasionally many families in one exposition
         nf += src.below(60);
+        if src.chance(40) {
+            // rarely: hundreds to a thousand (encoders may batch, chunk or parallelise above some count)
+            nf += 440 + src.below(700);
+        }
     }
     let mut out = vec![];
     for _ in 0..nf {
